@@ -138,7 +138,9 @@ theorem reject_eq_rejectText (x : Conn) (o : JObj) (pick : Nat) (draws : List Na
           cases hb : fieldVal (jget o "body") with
           | none => simp [hp, hb] at h
           | some bd =>
-            simp [hp, hb] at h; subst h
+            simp [hp, hb] at h
+            obtain ⟨_, h⟩ := h
+            subst h
             have h1 := fieldVal_isNone hp
             have h2 := fieldVal_isNone hb
             cases hxa : x.app <;> cases hmb : x.mailbox <;> cases hjp : jget o "phase" <;> cases hjb : jget o "body" <;>
